@@ -54,8 +54,10 @@ def chi2_quantile_upper(alpha, n):
 
 
 def beta_ref(method, alpha, n_dim):
+    """reference beta from the exact value of alpha (a Python float); no 1 - alpha is formed"""
+    alpha = float(alpha)
     if method == "iform":
-        return ND.inv_cdf(1 - alpha)
+        return -ND.inv_cdf(alpha)
     return math.sqrt(chi2_quantile_upper(alpha, n_dim))
 
 
@@ -76,7 +78,8 @@ def case_key(c, method):
     if c.get("how") == "refit":
         return f"{method} named=seastate-weibull-lognormal alpha={c['alpha']} n_points={c['n_points']} seed={c['seed']}"
     return (f"{method} n_dim={c['n_dim']} cond={c['cond']} families={','.join(c['families'])} "
-            f"shapes={c['sh']} alpha={c['alpha']} n_points={c['n_points']} seed={c['seed']}")
+            f"shapes={c['sh']} alpha={c['alpha']}" + (f" alpha_type={c['alpha_type']}" if c.get("alpha_type") else "")
+            + f" n_points={c['n_points']} seed={c['seed']}")
 
 
 def map_back(model, cond, x):
@@ -100,7 +103,10 @@ def contour_record(vc, model, c, method):
     with warnings.catch_warnings():
         warnings.simplefilter("ignore")
         try:
-            cont = cls(model, alpha, npnt)
+            # alpha as the caller's number type: Python float (default), numpy float64 or float32 (the case's
+            # alpha is then the exact value of that float32, so the reference is for the number passed)
+            a_in = {"float32": np.float32, "float64": np.float64}.get(c.get("alpha_type"), float)(alpha)
+            cont = cls(model, a_in, npnt)
         except Exception as e:  # noqa
             rec.update(finite=False, exc=f"{type(e).__name__}: {e}"[:200])
             return rec, None
@@ -379,6 +385,17 @@ def make_cases(ctx, cfgs):
                    [["expweibull", "weibull", "lognormal"][(i + idx + rep) % 3] for i in range(n)]
             add(cfg, [1e-8, 1e-6][j % 2], (NPTS2 if n == 2 else NPTSN)[1 + j % 3], fams)
             cases[-1]["spec"] = "ewlow"
+    # the number type of alpha: numpy float32 / float64 (Python float everywhere else), down to 1e-8
+    t2 = [cfg for cfg in by_n[2] if cfg["cond"][1] == 0 and cfg["sh"][1] != 1]
+    t3 = [cfg for cfg in by_n[3] if cfg["cond"][1] == 0 and cfg["cond"][2] == 1 and 1 not in cfg["sh"][1:]]
+    for idx in range(ctx.pick(12, 48)):
+        cfg = (t3 if idx % 4 == 3 else t2)[(idx * 3 + ctx.seed) % len(t3 if idx % 4 == 3 else t2)]
+        j += 1
+        atype = ["float32", "float32", "float64"][idx % 3]
+        a = [1e-8, 1e-6, 1e-4, 1e-2, 0.1][(idx // 3) % 5]
+        a = float(np.float32(a)) if atype == "float32" else a
+        add(cfg, a, (NPTS2 if cfg["n_dim"] == 2 else NPTSN)[1 + j % 3])
+        cases[-1]["alpha_type"] = atype
     # histories: contour -> change the same model object in place -> the same request again
     hist_cfgs = [cfg for cfg in by_n[2] if cfg["cond"][1] == 0 and cfg["sh"][1] != 1] + \
                 [cfg for cfg in by_n[3] if cfg["cond"][1] == 0 and cfg["cond"][2] == 1 and 1 not in cfg["sh"][1:]]
@@ -455,7 +472,7 @@ def run(ctx):
                 "thorough; 4-D: 3 / 96 shape assignments for each of the 24 structures); each is concretised with "
                 "shipped families (rotating over the 7) and seeded admissible parameters, alpha from "
                 "{0.5,0.1,1e-2,1e-4,1e-6,1e-8} (thorough also log-uniform), n_points from {3,7,30,180|60}; both "
-                "IFORM and ISORM; exponentiated Weibull with delta in [0.3,0.8] (marginal and conditional) at alpha "
+                "IFORM and ISORM; alpha also passed as numpy float32 / float64 (1e-8 .. 0.1); exponentiated Weibull with delta in [0.3,0.8] (marginal and conditional) at alpha "
                 "1e-6/1e-8; histories on one model object: contour, change in place (assign parameters | re-fit to "
                 "other data), the same (class, alpha, n_points) request again, judged against the current model. distinct = distinct (method, structure, families, shapes, alpha, n_points, seed); "
                 "non-trivial = at least one conditional dimension whose parameters vary with the given (probe "
